@@ -297,6 +297,30 @@ pub fn run(args: &Args) -> i32 {
         check_pattern(&sig, &few_rot, true, json!({"family": "pad-plateaus", "column": col, "first_row": r0, "pad_amplitudes": amps}), loc);
     });
 
+    // F7b: pad clusters with rows that carry no data at all (pad not sent / suppressed) inside or next to the cluster
+    let profiles: [&[f64]; 4] = [&[30.0, 60.0, 100.0, 70.0, 40.0, 20.0], &[100.0, 70.0, 40.0, 20.0, 10.0, 5.0], &[20.0, 50.0, 40.0, 90.0, 60.0, 30.0], &[50.0, 50.0, 80.0, 80.0, 50.0, 50.0]];
+    rep.run("pad-gaps", 4 * 64 * 2, 600, true, "one wire avalanche and a 6-row pad cluster (4 amplitude profiles) from which every subset of rows is left without data (all 64 subsets), at 2 columns: rotations + mirror", |idx, loc| {
+        let d = unrank(idx, &[64, 4, 2]);
+        let col = [3usize, 31][d[2] as usize];
+        let r0 = 285;
+        let mut sig = Signals::default();
+        let w = (8 * col + 8 + 4) % 256;
+        for dd in -4i64..=4 {
+            let ww = (w as i64 + dd).rem_euclid(256) as usize;
+            let s = sig.wires.entry(ww).or_insert_with(|| vec![0.0; 120]);
+            add_wire_pulse(s, 25, 120.0 * NEIGHBOR[dd.unsigned_abs() as usize]);
+        }
+        let amps = profiles[d[1] as usize];
+        for (i, q) in amps.iter().enumerate() {
+            if d[0] >> i & 1 == 0 {
+                let mut s = vec![0.0; 120];
+                add_pad_pulse(&mut s, 25, *q);
+                sig.pads.insert((col, r0 + i), s);
+            }
+        }
+        check_pattern(&sig, &few_rot, true, json!({"family": "pad-gaps", "column": col, "first_row": r0, "pad_amplitudes": amps, "rows_without_data_mask": d[0]}), loc);
+    });
+
     // F8: hook-free variant: the same relation through spec-conformant banks and the public API only
     rep.run("through-banks", if thorough { 12 } else { 4 }, 600, true, "lattice events and a seam-straddling block digitised and packed into banks (simulation run: uniform calibration), rotated / mirrored by re-encoding through the inverse channel maps: MainEvent::try_from_banks + avalanches() only", |idx, loc| {
         let m = maps();
